@@ -39,7 +39,7 @@ def extra_programs(ctx):
         for disk in (True, False):
             f.write(json.dumps({"api": "cdn.objects", "disk": disk}) + "\n")
         names = ["", "a", "ab", "abc", "abcd", "0123456789abcdef0123456789abcdef", "a\u00e9", "\u20acuro", "ab\u20ac", "abc\u00e9x",
-                 "\u65e5\u672c\u8a9e", "a/b", "../x", "../../../../x", "ab/../../x", "/abs", "a b", "a\tb", "x" * 300]
+                 "\u65e5\u672c\u8a9e", "a\u00e912", "ab\u00e9\u00e9", "\u0130" * 16, "\u00e9" * 16, "0123456789abcdef0123456789abcde\u00e9"[:31] + "\u00e9", "ABCDEF0123456789ABCDEF0123456789", "a/b", "../x", "../../../../x", "ab/../../x", "/abs", "a b", "a\tb", "x" * 300]
         for nm in names:
             # names travel hex-encoded: the strings are deliberately not ASCII
             f.write(json.dumps({"api": "cdn.archive_name", "name_hex": nm.encode().hex(), "len": len(nm.encode())}) + "\n")
